@@ -8,6 +8,7 @@ import (
 
 // encode: bytes, count and Len() equal the reference for all 2^32 values.
 func VP_C05_enc32() {
+	vp.SizeBound(16)
 	v := VarInt(vp.Int32())
 	var buf [MaxVarIntLen]byte
 	n := v.WriteToBytes(buf[:])
@@ -23,6 +24,7 @@ func VP_C05_enc32() {
 }
 
 func VP_C05_enc64() {
+	vp.SizeBound(16)
 	v := VarLong(vp.Int64())
 	var buf [MaxVarLongLen]byte
 	n := v.WriteToBytes(buf[:])
@@ -37,6 +39,7 @@ func VP_C05_enc64() {
 
 // WriteTo emits the same bytes and reports their number.
 func VP_C05_writeto32() {
+	vp.SizeBound(16)
 	v := VarInt(vp.Int32())
 	var w bytes.Buffer
 	n, err := v.WriteTo(&w)
@@ -52,6 +55,7 @@ func VP_C05_writeto32() {
 }
 
 func VP_C05_writeto64() {
+	vp.SizeBound(16)
 	v := VarLong(vp.Int64())
 	var w bytes.Buffer
 	n, err := v.WriteTo(&w)
@@ -69,6 +73,7 @@ func VP_C05_writeto64() {
 // decode(encode(v)) == v, n == count, reader advanced by exactly n with
 // arbitrary trailing bytes; through the io.ByteReader path and the wrapper path.
 func VP_C05_dec32() {
+	vp.SizeBound(16)
 	v := VarInt(vp.Int32())
 	ref, m := vpRefLEB(uint64(uint32(v)))
 	trail := vp.Bytes(3)
@@ -93,6 +98,7 @@ func VP_C05_dec32() {
 }
 
 func VP_C05_dec64() {
+	vp.SizeBound(16)
 	v := VarLong(vp.Int64())
 	ref, m := vpRefLEB(uint64(v))
 	trail := vp.Bytes(3)
@@ -120,6 +126,7 @@ func VP_C05_dec64() {
 // error when the first 5 / 10 bytes all carry the continuation bit. Nothing is
 // asserted about the value decoded from non-minimal encodings.
 func VP_C05_cap32() {
+	vp.SizeBound(16)
 	b := vp.Bytes(12)
 	got := VarInt(vp.Int32()) // arbitrary prior contents of the destination
 	var used int
@@ -149,6 +156,7 @@ func VP_C05_cap32() {
 }
 
 func VP_C05_cap64() {
+	vp.SizeBound(16)
 	b := vp.Bytes(12)
 	got := VarLong(vp.Int64()) // arbitrary prior contents of the destination
 	var used int
